@@ -152,7 +152,8 @@ template <typename D> struct Prog {
       int cx = (int) t.range(0, 2);
       // KF-C03-6: Box(C_Polyhedron, non-ANY complexity) throws std::length_error when the source polyhedron is empty
       if (TR::kind == 0 && cx != 0 && kf("KF-C03-6")) { bool bad = ref::is_empty(pm); if (bad) { c.excluded("KF-C03-6"); cx = 0; } }
-      if (float_box() && cx != 0 && unrep && kf("KF-C03-10")) { c.excluded("KF-C03-10"); cx = 0; }
+      (void) unrep;
+      if (float_box() && cx != 0 && kf("KF-C03-10")) { c.excluded("KF-C03-10"); cx = 0; }
       Complexity_Class cc = cx == 0 ? ANY_COMPLEXITY : cx == 1 ? SIMPLEX_COMPLEXITY : POLYNOMIAL_COMPLEXITY;
       c.log << "} complexity " << (cx == 0 ? "ANY" : cx == 1 ? "SIMPLEX" : "POLYNOMIAL") << "\n";
       if (t.chance(40)) (void) ph.minimized_generators();
@@ -204,7 +205,8 @@ template <typename D> struct Prog {
   }
 
   // KF-C03-10: floating-point boxes: constraint propagation (Box(ph, POLYNOMIAL/SIMPLEX), refine_with_constraint(s) with a
-  // non-interval constraint) rounds a coefficient that is not exactly representable in the wrong direction.
+  // non-interval constraint) is unsound: a coefficient that is not exactly representable is rounded in the wrong direction, and a bound
+  // that is exact may be made open because the FPU inexact flag was raised by an intermediate operation.
   static bool float_box() { return TR::kind == 0 && TR::extreme >= 100; }
   static bool unrepresentable(const RCon& rc) { mpz_class lim = 1; lim <<= 24; for (size_t j = 0; j < rc.e.a.size(); ++j) if (abs(rc.e.a[j]) >= lim) return true; return abs(rc.e.b) >= lim; }
 
@@ -288,6 +290,15 @@ template <typename D> struct Prog {
     int sym = (int) t.range(TR::strict ? 0 : 1, TR::strict ? 4 : 3);
     LE var(n); var.a[k] = 1;
     Sys tmp(2 * n); bool image = true; const char* name = ""; bool expr_ok = expressible(k, rhs, den);
+    // The following Box operators are known to be wrong (and may leave an inconsistent object): under the finding they are NOT executed.
+    // KF-C03-2: Box::generalized_affine_preimage(lhs, relsym, rhs) is computed as an image of a sign-swapped relation: unsound
+    if (TR::kind == 0 && op == 5 && kf("KF-C03-2")) { c.excluded("KF-C03-2"); c.log << "  (generalized_affine_preimage(lhs, ...) not executed: KF-C03-2)\n"; return; }
+    // KF-C03-7: Box::generalized_affine_image(lhs, relsym, rhs) cuts points of the exact image
+    if (TR::kind == 0 && op == 4 && kf("KF-C03-7")) { c.excluded("KF-C03-7"); c.log << "  (generalized_affine_image(lhs, ...) not executed: KF-C03-7)\n"; return; }
+    // KF-C03-4: Box::bounded_affine_image cuts points of the exact image
+    if (TR::kind == 0 && op == 6 && kf("KF-C03-4")) { c.excluded("KF-C03-4"); c.log << "  (bounded_affine_image not executed: KF-C03-4)\n"; return; }
+    // KF-C03-5: Box::generalized_affine_preimage(var, relsym, expr, d) with var not occurring in expr cuts points of the exact preimage
+    if (TR::kind == 0 && op == 3 && rhs.a[k] == 0 && sym != 2 && kf("KF-C03-5")) { c.excluded("KF-C03-5"); c.log << "  (generalized_affine_preimage not executed: KF-C03-5)\n"; return; }
     switch (op) {
     case 0: name = "affine_image"; c.log << "  affine_image x" << k << " := (" << rhs.str() << ")/" << den << "\n"; o.d.affine_image(Variable(k), rhs.ppl(), Coefficient(den)); add_rel(tmp, n, var, 2, rhs, den, true); break;
     case 1: name = "affine_preimage"; c.log << "  affine_preimage x" << k << " := (" << rhs.str() << ")/" << den << "\n"; o.d.affine_preimage(Variable(k), rhs.ppl(), Coefficient(den)); add_rel(tmp, n, var, 2, rhs, den, true); image = false; break;
@@ -304,14 +315,6 @@ template <typename D> struct Prog {
       o.d.bounded_affine_preimage(Variable(k), rhs.ppl(), rhs2.ppl(), Coefficient(den)); add_rel(tmp, n, var, 3, rhs, den, true); { Sys t2(2 * n); add_rel(t2, n, var, 1, rhs2, den, false); tmp.cs.push_back(t2.cs[0]); } image = false; expr_ok = false; break;
     }
     c.tag(std::string("op ") + name + (expr_ok ? " expressible" : " general"));
-    // KF-C03-2: Box::generalized_affine_preimage(lhs, relsym, rhs) is computed as an image of a sign-swapped relation: unsound
-    if (TR::kind == 0 && op == 5 && kf("KF-C03-2")) { c.excluded("KF-C03-2"); o.m = EXACT ? snapshot(o.d, n) : small(o.d, n); note_state(o); return; }
-    // KF-C03-7: Box::generalized_affine_image(lhs, relsym, rhs) cuts points of the exact image
-    if (TR::kind == 0 && op == 4 && kf("KF-C03-7")) { c.excluded("KF-C03-7"); o.m = EXACT ? snapshot(o.d, n) : small(o.d, n); note_state(o); return; }
-    // KF-C03-4: Box::bounded_affine_image cuts points of the exact image
-    if (TR::kind == 0 && op == 6 && kf("KF-C03-4")) { c.excluded("KF-C03-4"); o.m = EXACT ? snapshot(o.d, n) : small(o.d, n); note_state(o); return; }
-    // KF-C03-5: Box::generalized_affine_preimage(var, relsym, expr, d) with var not occurring in expr cuts points of the exact preimage
-    if (TR::kind == 0 && op == 3 && rhs.a[k] == 0 && sym != 2 && kf("KF-C03-5")) { c.excluded("KF-C03-5"); o.m = EXACT ? snapshot(o.d, n) : small(o.d, n); note_state(o); return; }
     Sys e = rel_apply(o.m, n, tmp.cs, image);
     // exactness only claimed for plain affine image/preimage with an expressible relation
     char mode = (expr_ok && op <= 1) ? 'E' : 'S';
@@ -335,7 +338,8 @@ template <typename D> struct Prog {
       for (int i = 0; i < m; ++i) { bool general = t.chance(50); RCon rc = general ? gen_con(t, n, wit, true, t.chance(15)) : gen_shape_con(n); if (general) shaped = false; if (general && unrepresentable(rc)) unrep = true; c.log << (i ? ", " : "") << str(rc); cs.insert(to_ppl(rc)); if (i == 0) first = to_ppl(rc); lo.add(to_refcon(rc)); }
       c.log << "}\n";
       if (m == 1 && t.chance(50)) o.d.refine_with_constraint(first); else o.d.refine_with_constraints(cs);
-      if (float_box() && unrep && kf("KF-C03-10")) { c.excluded("KF-C03-10"); o.m = small(o.d, n); note_state(o); break; }
+      (void) unrep;
+      if (float_box() && !shaped && kf("KF-C03-10")) { c.excluded("KF-C03-10"); o.m = small(o.d, n); note_state(o); break; }
       settle1(o, "refine_with_constraints", lo, 'S');
       if (EXACT) c.check("op.refine_with_constraints.upper", ref::included(o.m, before), [&] { return "refine_with_constraints enlarged the receiver: " + show_sys(o.m) + " was " + show_sys(before); });
       (void) shaped; break; }
